@@ -57,7 +57,7 @@ def _act(rng, nt, nl, nested):
     return ["has"] if not nested else ["add", t, l]
 
 
-TYPES = ["int", "float", "str", "bool", "list", "Duration"]
+TYPES = ["int", "float", "str", "bool", "list", "Duration", "object"]       # 'object': any value will do - but the key must be there
 
 
 def gen_case(rng, tier, i):
@@ -283,13 +283,14 @@ def _classify(got, want):
 # ---------------------------------------------------------------------------------------------- metadata family
 def _tobj(name):
     from pydsol.core.units import Duration
-    return {"int": int, "float": float, "str": str, "bool": bool, "list": list, "Duration": Duration}[name]
+    return {"int": int, "float": float, "str": str, "bool": bool, "list": list, "Duration": Duration, "object": object}[name]
 
 
 def _sample(name, variant=0):
     from pydsol.core.units import Duration
     return {"int": [3, 0, -7], "float": [2.5, 0.0, -1e9], "str": ["x", "", "abc"], "bool": [True, False, True],
-            "list": [[1], [], [None]], "Duration": [Duration(1.0, "s"), Duration(0.0, "h"), Duration(2.0, "min")]}[name][variant % 3]
+            "list": [[1], [], [None]], "Duration": [Duration(1.0, "s"), Duration(0.0, "h"), Duration(2.0, "min")],
+            "object": [("any", 1), 7, "text"]}[name][variant % 3]
 
 
 def _conforms(decl, payload):
@@ -312,7 +313,7 @@ def _meta(case, ctx):
     elif shape == "extra":
         payload["zz_extra"] = 1
     elif shape == "wrongtype" and keys:
-        wrong = {"int": "s", "float": "s", "str": 5, "bool": "s", "list": 5, "Duration": 5.0}
+        wrong = {"int": "s", "float": "s", "str": 5, "bool": "s", "list": 5, "Duration": 5.0, "object": 5}
         payload[keys[-1]] = wrong[decl[keys[-1]]]
     elif shape == "nondict":
         payload = [payload.get(k) for k in keys]
@@ -322,7 +323,7 @@ def _meta(case, ctx):
 
         class MyList(list):
             pass
-        sub = {"int": True, "float": _sample("Duration"), "str": MyStr("q"), "bool": True, "list": MyList(), "Duration": _sample("Duration")}
+        sub = {"int": True, "float": _sample("Duration"), "str": MyStr("q"), "bool": True, "list": MyList(), "Duration": _sample("Duration"), "object": MyStr("o")}
         payload[keys[0]] = sub[decl[keys[0]]]
     elif shape == "none_value" and keys:
         payload[keys[0]] = None
@@ -330,10 +331,10 @@ def _meta(case, ctx):
         payload[keys[0] + "_x"] = payload.pop(keys[0])
     elif shape == "empty":
         payload = {}
-    elif shape == "defaultdict" and keys and decl[keys[0]] in ("int", "float", "str", "bool", "list"):
+    elif shape == "defaultdict" and keys and decl[keys[0]] in ("int", "float", "str", "bool", "list", "object"):
         # a dict subclass that invents missing keys on look-up: it lacks a declared key (and has a stray one instead)
         import collections
-        fac = {"int": int, "float": float, "str": str, "bool": bool, "list": list}[decl[keys[0]]]
+        fac = {"int": int, "float": float, "str": str, "bool": bool, "list": list, "object": object}[decl[keys[0]]]
         first = payload.pop(keys[0])
         payload = collections.defaultdict(fac, {**payload, "zz_other": first})
     elif shape == "reused_then_mutated" and keys:
@@ -343,7 +344,7 @@ def _meta(case, ctx):
             TimedEvent(1.0, et, payload, True)
         except Exception:
             pass
-        wrong = {"int": "s", "float": "s", "str": 5, "bool": "s", "list": 5, "Duration": 5.0}
+        wrong = {"int": "s", "float": "s", "str": 5, "bool": "s", "list": 5, "Duration": 5.0, "object": 5}
         if len(keys) % 2:
             payload[keys[-1]] = wrong[decl[keys[-1]]]
         else:
